@@ -564,7 +564,7 @@ func ruleL8(c *Ctx, id string) {
 				continue
 			}
 			owner := ownerOf(cs.Caller)
-			why, ok := rawAcquirers[FuncName(owner)]
+			why, ok := byFunc(rawAcquirers, FuncName(owner))
 			if !ok && soleAcquisition(c, cs.Instr) {
 				ok, why = true, "the only acquisition of a transaction begun in this function: it never waits for a second lock"
 			}
